@@ -50,7 +50,9 @@ void thread_init() {
 
 void init() {
 	if (g_base) return;
-	void *p = mmap(0, ARENA, PROT_NONE, MAP_PRIVATE | MAP_ANONYMOUS | MAP_NORESERVE, -1, 0);
+	void *hint = nullptr;
+	if (getenv("VERIF_ARENA_HINT")) hint = (void *) strtoull(getenv("VERIF_ARENA_HINT"), 0, 16); // experiments on address dependence
+	void *p = mmap(hint, ARENA, PROT_NONE, MAP_PRIVATE | MAP_ANONYMOUS | MAP_NORESERVE | (hint ? MAP_FIXED_NOREPLACE : 0), -1, 0);
 	if (p == MAP_FAILED) { perror("guard arena mmap"); _exit(5); }
 	g_base = (uint8_t *) p;
 	g_used = 0;
